@@ -183,8 +183,8 @@ theorem bsLoop_spec (cmpAt : Nat → Outcome Ordering) (g : Nat → Ordering) (n
     (hg : ∀ j, j < n → cmpAt j = .ok (g j))
     (mono : ∀ a b, a ≤ b → b < n → g b = .lt → g a = .lt)
     (fuel lo hi : Nat) (hlo : ∀ j, j < lo → g j = .lt) (hhi : ∀ j, hi ≤ j → j < n → g j ≠ .lt)
-    (hle : lo ≤ hi) (hhin : hi ≤ n) (hf : hi - lo ≤ fuel) :
-    ∃ i, bsLoop cmpAt fuel lo hi = .ok i ∧ lo ≤ i ∧ i ≤ hi ∧ (∀ j, j < i → g j = .lt) ∧
+    (hle : lo ≤ hi) (hhin : hi ≤ n) (hf : hi - lo ≤ fuel) (bad : Bool) :
+    ∃ i, bsLoop cmpAt fuel lo hi bad = .ok (i, bad) ∧ lo ≤ i ∧ i ≤ hi ∧ (∀ j, j < i → g j = .lt) ∧
       (∀ j, i ≤ j → j < n → g j ≠ .lt) := by
   induction fuel generalizing lo hi with
   | zero =>
@@ -251,7 +251,7 @@ theorem search_spec (ks : List Bytes) (offs : List Nat) (readKey : Nat → Outco
     | nil => simp at hlen; omega
     | cons _ _ => rfl
   obtain ⟨i, hbs, _, hin, hbelow, habove⟩ := bsLoop_spec cmpAt g ks.length hg mono ks.length 0 ks.length
-    (by intro j hj; omega) (by intro j h1 h2; omega) (Nat.zero_le _) (Nat.le_refl _) (by omega)
+    (by intro j hj; omega) (by intro j h1 h2; omega) (Nat.zero_le _) (Nat.le_refl _) (by omega) false
   -- strictly above: a later sampled key is greater than any sampled key that is not below the target
   have gt_of : ∀ a b, a < b → b < ks.length → g a ≠ .lt → g b = .gt := by
     intro a b hab hb hna
@@ -264,13 +264,13 @@ theorem search_spec (ks : List Bytes) (offs : List Nat) (readKey : Nat → Outco
       rw [this] at h1; exact absurd h1 hna
   unfold search
   simp only [hne, Bool.false_eq_true, if_false, hlen]
-  show ∃ f, f < ks.length ∧ (match bsLoop cmpAt ks.length 0 ks.length with
+  show ∃ f, f < ks.length ∧ (match bsLoop cmpAt ks.length 0 ks.length false with
       | .err => SearchRes.err
       | .panic => SearchRes.panic
-      | .ok i => match (if i < ks.length then cmpAt i else .ok .lt) with
+      | .ok (i, bad) => match (if i < ks.length then cmpAt i else .ok .lt) with
         | .err => SearchRes.err
         | .panic => SearchRes.panic
-        | .ok o => SearchRes.range (offs.getD (if o = Ordering.eq then i else if 0 < i then i - 1 else i) 0)
+        | .ok o => if bad then SearchRes.err else SearchRes.range (offs.getD (if o = Ordering.eq then i else if 0 < i then i - 1 else i) 0)
             (if (if o = Ordering.eq then i else if 0 < i then i - 1 else i) + 1 = ks.length then none
              else some (offs.getD ((if o = Ordering.eq then i else if 0 < i then i - 1 else i) + 1) 0))) = _ ∧ _
   rw [hbs]
